@@ -52,3 +52,12 @@ Theorem C20_failure_does_not_depend_on_the_moment : forall p v n m,
   HeapDeterm.eres (exec p v n) = HeapDeterm.eres (exec p v m).
 Proof. exact HeapDeterm.exec_determ. Qed.
 Print Assumptions C20_failure_does_not_depend_on_the_moment.
+
+
+(* and with EQUAL arguments - two objects equal as values, possibly distinct: the literal wording of the property *)
+From AV Require Proofs.HeapDeterm2.
+Theorem C20_equal_arguments_give_equal_results : forall p v1 v2 n m r1 b1 n1,
+  HeapDeterm.erase v1 = HeapDeterm.erase v2 -> exec p v1 n = Some (r1, b1, n1) ->
+  exists r2 b2 m1, exec p v2 m = Some (r2, b2, m1) /\ HeapDeterm.erase r2 = HeapDeterm.erase r1.
+Proof. exact HeapDeterm2.equal_arguments_give_equal_results. Qed.
+Print Assumptions C20_equal_arguments_give_equal_results.
